@@ -640,9 +640,10 @@ fn attrs_json(tcx: TyCtxt<'_>, ldid: LocalDefId) -> J {
     for a in tcx.hir_attrs(hid) {
         let d = format!("{:?}", a);
         // keep only tool / helper attributes that matter (serde, repr, derive markers)
-        if d.contains("serde") || d.contains("Repr") || d.contains("repr") {
-            out.push(J::s(d));
+        if d.starts_with("Parsed(DocComment") {
+            continue;
         }
+        out.push(J::s(d));
     }
     J::Arr(out)
 }
